@@ -211,6 +211,9 @@ def main(out_v, out_json):
         g.put(nm + "_shutdown_clears_queue", 1 if b and re.search(r"lock\(\)\.clear\(\)", b) else 0, "syntax")
         g.put(nm + "_shutdown_clears_table", 1 if b and re.search(r"\.clear_sync\(\)", b) else 0, "syntax")
     fqsrc = rd("src/fair_queue.rs")
+    # the poll loop yields when the stream it polled has woken the waker it was polled with (C06)
+    g.put("fq_pending_checks_woken", 1 if re.search(r"Poll::Pending => \{[^}]*streams\.insert\([^)]*\);\s*if waker\.woken\.load\([^)]*\)\s*\{[^}]*return Poll::Pending;", fqsrc, re.S) else 0, "syntax")
+    g.put("fq_waker_sets_woken", 1 if re.search(r"fn wake_by_ref\(arc_self: &Arc<Self>\) \{\s*arc_self\.woken\.store\(true", fqsrc) else 0, "syntax")
     clr = fn_body(fqsrc, r"pub fn clear\(&mut self\)")
     g.put("queue_clear_drops_streams", 1 if clr and re.search(r"self\.streams\.clear\(\)", clr) else 0, "syntax")
     drops = 0
